@@ -65,7 +65,7 @@ PROPS = {
                 rule='random (mostly defective) terminal/rule lists through the callbacks, every defect class alone and in pairs, strict in {0,1}; return code vs model, symbol flags and rules vs model',
                 assumptions=COMMON_ASSUME + ['the three analysis loops of the C code (set_empty_access_derives, create_first_follow_sets, set_loop_p: pass structure, visiting order, change flags, breaks, in-place updates) are modelled step for step (Model/AnalysisC.lean) and proved to compute the abstract analysis (emptyAccessDerives_eq, firstFollowC_eq, loopC_eq, checkGrammarC_eq_built, readGrammar_eq_C); the flags they leave are compared with the library per definition']),
     'C11': dict(level='proof', theorem_modules=['C11', 'C11Yacc', 'C10', 'Generated'], min_theorems=8, tags=['C11', 'C01', 'C02', 'C03', 'C04', 'C05'], crash_counts=True,
-                gen=lambda seed, tier: gen.gen_descr_cases(seed, 20000 if tier == 'thorough' else 2000), flavours=['c'],
+                gen=lambda seed, tier: gen.gen_descr_cases(seed, 20000 if tier == 'thorough' else 2000) + gen.gen_descr_sweep_cases(seed + 9, tier), flavours=['c'],
                 rule='descriptions printed from a random AST with random layout (whitespace, newlines, comments, optional semicolons, TERM sections anywhere, redeclarations with and without the code, explicit and implicit codes, char constants, all translation forms), 30% byte-mutated, 10% arbitrary bytes; return code, error line, terminals-with-codes and rules vs the Lean lexer/parser model; parses through the description-defined object and its callback-defined twin both judged against the model',
                 assumptions=COMMON_ASSUME + ['the acceptance of a token sequence by the bison-generated parser is the language of the productions of sgramm.y (bison reports no conflict; bison is trusted)']),
     'C16': dict(level='proof', theorem_modules=['C16', 'C01', 'C10', 'C15', 'C19', 'Generated'], min_theorems=8, crash_counts=True, compare_flavours=True,
@@ -83,7 +83,7 @@ PROPS = {
                                         gen.gen_parse_cases(seed + 1, 6000 if tier == 'thorough' else 400, 'C07', maxlen=9) +
                                         gen.gen_parse_cases(seed + 2, 6000 if tier == 'thorough' else 400, 'C04') +
                                         gen.gen_history_cases(seed + 3, 4000 if tier == 'thorough' else 300) +
-                                        gen.gen_descr_cases(seed + 4, 4000 if tier == 'thorough' else 300) +
+                                        gen.gen_descr_cases(seed + 4, 4000 if tier == 'thorough' else 300) + gen.gen_descr_sweep_cases(seed + 9, tier) +
                                         gen.gen_def_cases(seed + 5, 4000 if tier == 'thorough' else 300) +
                                         long_c09_cases(seed + 6, 'quick')), flavours=['c', 'cxx', 'c-plain'],
                 rule='hostile stream (arbitrary byte strings and mutated texts as descriptions, 150-1000 character symbol names in every error message, 70-260 terminals with dense/sparse/huge codes, arbitrary int token sequences incl. undeclared and negative codes, extreme setter values, all debug levels) plus samples of every other case family, on the C and the C++ build under ASan+UBSan with real frees and a 20 s watchdog per case; a sanitizer report, abort, non-zero exit or timeout is a violation; message length <= 200',
